@@ -59,7 +59,7 @@ def run_case(ck, paths, reftool, idx, rel=None):
     alpha = gen.DNA if kind == "dna" else gen.AA
     n = rng.randint(2, 60) if rng.random() < 0.8 else rng.randint(2, 8)
     L_ = rng.randint(5, 160)
-    if idx % 150 == 7 and (ck.tier == "thorough" or idx == 7 and False):
+    if idx % 150 == 7 and (ck.tier == "thorough" or idx == 7):
         # one large comparison: (rows - 1) x residues beyond 2^31
         n, L_ = rng.choice([(3000, 250), (1300, 1400)])
         ck.count("large_comparisons_rows_times_residues_over_2e9")
@@ -82,7 +82,11 @@ def run_case(ck, paths, reftool, idx, rel=None):
         # a row without residues (e.g. a slice of a larger alignment): every residue of the other rows is related to a gap in it
         source = "files_random"
         allgap_row = "empty_row_%d" % idx
-    ctx = {"idx": idx, "kind": kind, "source": source, "input": recs if sum(map(len, seqs)) < 6000 else "(seed-derived)"}
+    if rel is not None and n < 1000 and rng.random() < 0.35:
+        # glibc malloc instead of ASan's quarantine: freed objects are reused at once, as in production
+        paths = rel
+        ck.count("cases_on_the_O2_build_with_glibc_malloc")
+    ctx = {"idx": idx, "kind": kind, "source": source, "variant": paths["variant"], "input": recs if sum(map(len, seqs)) < 6000 else "(seed-derived)"}
     f = ck.tmp(".fa")
     common.write_bytes(f, fmt.write_fasta(recs))
     script = []
